@@ -223,7 +223,7 @@ theorem flat_eq_walk (f : Flat) : ∀ (rest path : List Nat) (lo hi : Nat) (st :
             { wild := nd.wildcard, icannNode := nd.icann,
               suffix := if nd.ntype = 0 then some (path.length + 1) else
                 if st.wild = true then some (path.length + 1) else st.suffix,
-              icann := if nd.wildcard = true then (if st.wild = true then st.icannNode else st.icann) else nd.icann }
+              icann := if nd.ntype = 0 then nd.icann else (if st.wild = true then st.icannNode else st.icann) }
             nd (by rw [hstep, hc])
           simpa using this
 
@@ -247,5 +247,130 @@ theorem walk_congr (look1 look2 : List Nat → Option NodeInfo) : ∀ (rest path
         | cons l' ls =>
           simp only
           exact walk_congr look1 look2 (l' :: ls) (path ++ [l]) _ (by simpa using h)
+
+/-! ### ICANN flag -/
+
+/-- Rules with the same label sequence (e.g. `b.c` and `*.b.c`) are in the same section: the packed
+trie has one ICANN bit per node. -/
+def FlagConsistent (rules : List Rule) : Prop :=
+  ∀ r1 ∈ rules, ∀ r2 ∈ rules, r1.labels = r2.labels → r1.icann = r2.icann
+
+theorem nodeAt_icann (rules : List Rule) (hfc : FlagConsistent rules) (p : List Nat) (nd : NodeInfo)
+    (h : nodeAt rules p = some nd) (k : Kind) (hk : hasKind rules k p = true) :
+    nd.icann = firstFlag rules k p := by
+  unfold nodeAt at h
+  by_cases hany : rules.any (fun r => p.isPrefixOf r.labels) = true
+  · rw [if_pos hany] at h
+    simp only [Option.some.injEq] at h
+    rw [← h]
+    simp only
+    unfold firstFlag
+    obtain ⟨r, hr, hkk, hl⟩ := (hasKind_iff _ _ _).mp hk
+    cases hf : rules.find? (fun r => decide (r.kind = k) && decide (r.labels = p)) with
+    | none =>
+      have := List.find?_eq_none.mp hf r hr
+      simp [hkk, hl] at this
+    | some r0 =>
+      have hmem := List.mem_of_find?_eq_some hf
+      have hpr := List.find?_some hf
+      simp only [Bool.and_eq_true, decide_eq_true_eq] at hpr
+      simp only
+      cases hi : r0.icann with
+      | true =>
+        rw [List.all_eq_true]
+        intro r' hr'
+        by_cases hl' : r'.labels = p
+        · have := hfc r' hr' r0 hmem (by rw [hl', hpr.2])
+          simp [this, hi]
+        · simp [hl']
+      | false =>
+        rw [Bool.eq_false_iff]
+        intro hall
+        have := List.all_eq_true.mp hall r0 hmem
+        simp [hpr.2, hi] at this
+  · rw [if_neg hany] at h; exact absurd h (by simp)
+
+theorem specFlagGo_dead (rules : List Rule) : ∀ (more p : List Nat) (best : Bool),
+    (∀ r ∈ rules, ¬ p <+: r.labels) → specFlagGo rules p more best = best
+  | [], _, _, _ => by simp [specFlagGo]
+  | l :: more, p, best, h => by
+    have hp : ∀ r ∈ rules, ¬ (p ++ [l]) <+: r.labels := fun r hr hpre =>
+      h r hr (List.IsPrefix.trans (List.prefix_append p [l]) hpre)
+    have e1 : hasExc rules (p ++ [l]) = false := by
+      apply Bool.eq_false_iff.mpr; intro hc
+      obtain ⟨r, hr, _, hl⟩ := (hasKind_iff _ _ _).mp hc
+      exact hp r hr (by rw [hl]; exact List.prefix_refl _)
+    have e2 : hasNormal rules (p ++ [l]) = false := by
+      apply Bool.eq_false_iff.mpr; intro hc
+      obtain ⟨r, hr, _, hl⟩ := (hasKind_iff _ _ _).mp hc
+      exact hp r hr (by rw [hl]; exact List.prefix_refl _)
+    have e3 : hasWild rules p = false := by
+      apply Bool.eq_false_iff.mpr; intro hc
+      obtain ⟨r, hr, _, hl⟩ := (hasKind_iff _ _ _).mp hc
+      exact h r hr (by rw [hl]; exact List.prefix_refl _)
+    simp only [specFlagGo, e1, e2, e3, Bool.false_eq_true, if_false]
+    exact specFlagGo_dead rules more (p ++ [l]) best hp
+
+/-- The flag the loop returns is the flag of the prevailing rule of the PSL scan. -/
+theorem walk_flag_eq (rules : List Rule) (hnc : NoConflict rules) (hfc : FlagConsistent rules) :
+    ∀ (rest path : List Nat) (st : WalkSt), st.wild = hasWild rules path →
+      (st.wild = true → st.icannNode = firstFlag rules .wildcard path) →
+      (walk (nodeAt rules) path rest st).2 = specFlagGo rules path rest st.icann
+  | [], _, _, _, _ => by simp [walk, specFlagGo]
+  | l :: more, path, st, hw, hin => by
+    unfold walk specFlagGo
+    have hic1 : (if st.wild = true then st.icannNode else st.icann) =
+        (if hasWild rules path = true then firstFlag rules .wildcard path else st.icann) := by
+      by_cases hwt : st.wild = true
+      · simp [hwt, ← hw, hin hwt]
+      · have : hasWild rules path = false := by rw [← hw]; simpa using hwt
+        simp [hwt, this]
+    cases hlook : nodeAt rules (path ++ [l]) with
+    | none =>
+      have hdead := nodeAt_none rules _ hlook
+      have e1 : hasExc rules (path ++ [l]) = false := by
+        apply Bool.eq_false_iff.mpr; intro hc
+        obtain ⟨r, hr, _, hl⟩ := (hasKind_iff _ _ _).mp hc
+        exact hdead r hr (by rw [hl]; exact List.prefix_refl _)
+      have e2 : hasNormal rules (path ++ [l]) = false := by
+        apply Bool.eq_false_iff.mpr; intro hc
+        obtain ⟨r, hr, _, hl⟩ := (hasKind_iff _ _ _).mp hc
+        exact hdead r hr (by rw [hl]; exact List.prefix_refl _)
+      simp only [e1, e2, Bool.false_eq_true, if_false]
+      rw [specFlagGo_dead rules more (path ++ [l]) _ hdead]
+      exact hic1
+    | some nd =>
+      obtain ⟨ht1, ht0⟩ := nodeAt_type rules hnc _ nd hlook
+      have hwd := nodeAt_wild rules _ nd hlook
+      simp only
+      by_cases h1 : nd.ntype = 1
+      · have hex := ht1.mp h1
+        simp only [h1, if_true, hex]
+        exact nodeAt_icann rules hfc _ nd hlook .exception hex
+      · have hex : hasExc rules (path ++ [l]) = false := by
+          apply Bool.eq_false_iff.mpr; intro hc; exact h1 (ht1.mpr hc)
+        simp only [h1, if_false, hex, Bool.false_eq_true]
+        have hbest : (if nd.ntype = 0 then nd.icann
+              else if st.wild = true then st.icannNode else st.icann) =
+            (if hasNormal rules (path ++ [l]) = true then firstFlag rules .normal (path ++ [l])
+              else if hasWild rules path = true then firstFlag rules .wildcard path else st.icann) := by
+          by_cases h0 : nd.ntype = 0
+          · have hn := ht0.mp h0
+            simp only [h0, if_true, hn]
+            exact nodeAt_icann rules hfc _ nd hlook .normal hn
+          · have : hasNormal rules (path ++ [l]) = false := by
+              apply Bool.eq_false_iff.mpr; intro hc; exact h0 (ht0.mpr hc)
+            simp only [h0, if_false, this, Bool.false_eq_true]
+            exact hic1
+        cases more with
+        | nil => simp only [specFlagGo]; exact hbest
+        | cons l' ls =>
+          simp only
+          rw [walk_flag_eq rules hnc hfc (l' :: ls) (path ++ [l]) _ (by simpa using hwd)
+            (by
+              intro hwt
+              simp only at hwt ⊢
+              exact nodeAt_icann rules hfc _ nd hlook .wildcard (by show hasWild rules (path ++ [l]) = true; rw [← hwd]; exact hwt))]
+          simp only [hbest]
 
 end NetVerif.Proofs.Lemmas.PublicSuffix
